@@ -24,9 +24,9 @@ What is mirrored (read line by line from /repo/tm2/pkg/db):
   (`Backend.afterWrite`); memdb/boltdb/lmdbdb/mdbxdb keep the caller's key and
   value slices in the staged op (`Backend.batchRetains`);
 * snapshots exist for memdb and pebbledb only (`Backend.snapshots`);
-* wrappers: `PrefixDB` (key prefixing, `cpIncr` end bound incl. its carry
-  quirk and the panic on an empty prefix, prefix-stripping iterator that stops
-  at the first foreign key, no snapshots), `ImmutableDB`, `SnapshotDB`
+* wrappers: `PrefixDB` (key prefixing, `cpIncr` end bound and its panic on an
+  empty prefix, prefix-stripping iterator that stops at the first foreign key,
+  no snapshots), `ImmutableDB`, `SnapshotDB`
   (read-only no-op batch), `CollectingDB` + `BatchCollector` (write log with
   read-your-writes for point reads, pass-through iterators, `Drain`).
 
@@ -200,13 +200,12 @@ def State.flip (st : State) (ids : List Nat) : State :=
     batches := st.batches.map (fun b => { b with ops := b.ops.map (fun o => { o with cell := o.cell.flipIf ids }) })
     colls := st.colls.map (fun c => (c.1, c.2.map (fun o => { o with cell := o.cell.map (Cell.flipIf ids) }))) }
 
-/-- Go's `cpIncr` on the reversed slice: increment with carry; `none` on overflow. -/
-def incrRev : Bytes → Option Bytes
-  | [] => none
-  | b :: rest => if b < 255 then some ((b + 1) :: rest) else (incrRev rest).map (fun r => 0 :: r)
-
-/-- `db.cpIncr` (tm2/pkg/db/util.go) for a non-empty slice: same length, big-endian + 1; nil on overflow. -/
-def cpIncr (bz : Bytes) : Option Bytes := (incrRev bz.reverse).map List.reverse
+/-- `db.cpIncr` (tm2/pkg/db/util.go) for a non-empty slice: the shortest byte
+string greater than every string with prefix `bz` (increment as a big-endian
+number and drop the bytes that wrapped from 0xFF); nil when all bytes are
+0xFF.  That is `Lex.prefixEnd`.  (Go panics on an empty slice; the callers
+below check that first.) -/
+def cpIncr (bz : Bytes) : Option Bytes := Lex.prefixEnd bz
 
 /-- the collector's `pending` lookup: the latest op recorded for `k`. -/
 def collGet (ops : List COp) (k : Bytes) : Option COp := ops.reverse.find? (fun o => o.key == k)
